@@ -733,7 +733,7 @@ class CompartmentalSystem(Statement):
         >>> model.statements.ode_system.free_symbols  # doctest: +SKIP
         {AMT, CL, V, t}
         """
-        free = {Expr.symbol('t')}
+        free = {self._t}
         for _, _, rate in self._g.edges.data('rate'):
             free |= rate.free_symbols
         for node in _comps(self._g):
